@@ -57,6 +57,7 @@ type goRes struct {
 	Leaves   map[string][]leafObs `json:"leaves"`
 	Ast      map[string]string    `json:"ast"`
 	InAug    map[string]bool      `json:"in_augment,omitempty"`
+	Dropped  int                  `json:"entry_layer_errors_left_out,omitempty"`
 	Panic    string               `json:"panic,omitempty"`
 }
 
@@ -64,17 +65,25 @@ type goRes struct {
 // the Go side (runs in the child)
 
 func errLines(errs []error) []string {
+	out, _ := errLinesN(errs)
+	return out
+}
+
+// errLinesN also counts the errors it leaves out.
+func errLinesN(errs []error) ([]string, int) {
 	out := make([]string, 0, len(errs))
+	dropped := 0
 	for _, e := range errs {
 		msg := e.Error()
 		// reports of the entry layer about include statements (a submodule nobody includes, an
 		// include cycle) are not the type layer's business
 		if strings.Contains(msg, "is not resolved") || strings.Contains(msg, "has a circular dependency") {
+			dropped++
 			continue
 		}
 		out = append(out, lib.ErrLine(msg))
 	}
-	return out
+	return out, dropped
 }
 
 func runGo(c tcase) (res goRes) {
@@ -94,7 +103,7 @@ func runGo(c tcase) (res goRes) {
 			return res
 		}
 	}
-	res.P1 = errLines(ms.Process())
+	res.P1, res.Dropped = errLinesN(ms.Process())
 	res.P2 = errLines(ms.Process())
 	seen := map[*yang.Module]bool{}
 	var mods []*yang.Module
@@ -536,7 +545,7 @@ func compare(g goRes, m modelRes) []string {
 				want = append(want, m.Leaves[k].Errs...)
 			}
 		}
-		if len(want) == 0 {
+		if len(want) == 0 && g.Dropped == 0 {
 			want = inAug
 		}
 	}
